@@ -115,7 +115,7 @@ pub fn adapter_op(g: &mut G) -> Option<Op> {
             g.tasks.push(task);
             let total = *g.rng.pick(&[1u32, 7, 64, 300, 5000, 20000]);
             let chunk = *g.rng.pick(&[1u32, 3, 16, 100, 4096, 9000]);
-            Some(Op::AdapterTask { exec, task, adapter, kind: g.rng.below(7) as u8, total, chunk, then: *g.rng.pick(&[0u8, 0, 1, 2]) })
+            Some(Op::AdapterTask { exec, task, adapter, kind: g.rng.below(8) as u8, total, chunk, then: *g.rng.pick(&[0u8, 0, 1, 2]) })
         }
         6..=8 => Some(Op::AdapterPeerWrite(*g.rng.pick(&g.adapters.clone()), *g.rng.pick(&[1u32, 5, 64, 1000, 6000, 30000]))),
         9 | 10 => Some(Op::AdapterPeerRead(*g.rng.pick(&g.adapters.clone()), *g.rng.pick(&[1u32, 64, 4096, 70000]))),
